@@ -304,6 +304,13 @@ def mk_opresult(den_, type=None):
     return v
 
 
+def performing_rewriter(op):
+    """natively: xdsl's own PatternRewriter (it performs everything)"""
+    from xdsl.pattern_rewriter import PatternRewriter
+
+    return PatternRewriter(op)
+
+
 def mk_ident_value(tag, type=None):
     """natively an SSA-value stand-in is just its identity tag (ints compare by value)"""
     return ("ssa", int(tag))
